@@ -145,7 +145,7 @@ def model_cfg(case):
     k = case["kind"]
     if k in ("icollect", "collect"):
         return (1, 0, 1 if k == "collect" else case["ri"], case["ew"], 0), "P"
-    return (case["oc"], case["pi"], case["ri"], case["ew"], 0), case["fb"]
+    return (case["oc"], case["pi"], case["ri"], case["ew"], case.get("out", 0)), case["fb"]
 
 
 def model_line(case):
@@ -164,10 +164,11 @@ def render_content(c):
 def oracle(case):
     """expected observable behaviour, computed directly from the case description"""
     cfg, fb = model_cfg(case)
-    oc, pi, ri, ew, _ = cfg
+    oc, pi, ri, ew, out = cfg
     rb = case["rb"]
     single = not case.get("bundle")
     per = []
+    writes = {}
     for files in tasks_of(case):
         info_r = f"s{files[0]}" if single else "b" + ",".join(map(str, files))
         head = info_r if ri else "-"
@@ -191,9 +192,13 @@ def oracle(case):
             key = content - 1000 if isinstance(content, int) else (content[0] - 1000 if content else None)
         beh = fb[key] if key is not None and 0 <= key < len(fb) else "v"
         if beh == "n":
-            per.append(("ok", head + "/N", False))
+            per.append(("ok", head + ("/F0" if out else "/N"), False))
         elif beh == "r":
             per.append(("err", f"func:{key}"))
+        elif out:
+            per.append(("ok", head + "/F1", False))
+            a, b = tmin(2 * min(files)), tmin(2 * max(files) + 1)
+            writes[f"{a:%Y%m%d_%H%M}-{b:%H%M}.dat"] = text
         else:
             per.append(("ok", head + "/V" + text, False))
     items, exc = [], None
@@ -202,7 +207,7 @@ def oracle(case):
             exc = p[1]
             break
         items.append(p[1])
-    return {"items": items, "exc": exc, "per": per,
+    return {"items": items, "exc": exc, "per": per, "writes": writes,
             "warn": sum(1 for p in per if p[0] == "ok" and p[2])}
 
 
@@ -328,6 +333,11 @@ def run_real(sc, case):
     elif case.get("bundle"):
         kw["bundle"] = case["bundle"]
     kind = case["kind"]
+    outdir = None
+    if cfg[4]:
+        from typhon.files import FileSet, FileHandler
+        outdir = tempfile.mkdtemp(dir=sc.root, prefix="out")
+        kw["output"] = FileSet(os.path.join(outdir, TEMPLATE), name="out", handler=FileHandler(writer=cw.writer))
     if kind in ("imap", "map"):
         kw.update(on_content=bool(cfg[0]), pass_info=bool(cfg[1]), return_info=bool(cfg[2]),
                   error_to_warning=bool(cfg[3]), worker_type=wt)
@@ -400,6 +410,9 @@ def run_real(sc, case):
                reads=collections.Counter(ctl.read_log()), wall=time.time() - t0)
     if gdir:
         shutil.rmtree(gdir, ignore_errors=True)
+    if outdir:
+        obs["writes"] = {f: open(os.path.join(outdir, f)).read() for f in sorted(os.listdir(outdir))}
+        shutil.rmtree(outdir, ignore_errors=True)
     return obs, exp
 
 
@@ -413,7 +426,7 @@ def parse_model(case, out):
     if len(f) != 7:
         return {"bad": out}
     return {"events": lst(f[0]), "items": lst(f[1]), "exc": None if f[2] == "-" else f[2],
-            "maxq": f[3], "log": lst(f[4]), "warn": int(f[5])}
+            "maxq": f[3], "log": lst(f[4]), "warn": int(f[5]), "writes": lst(f[6])}
 
 
 def classify(case, what):
@@ -443,6 +456,11 @@ def check_case(ck, sc, case, model_out=None):
     elif lazy or exp["exc"] is None:
         if obs["items"] != exp["items"]:
             viol(f"{kind} delivered {obs['items']}, expected (find() order) {exp['items']}")
+    if "writes" in obs:
+        if exp["exc"] is None and obs["writes"] != exp["writes"]:
+            viol(f"output files {obs['writes']}, expected {exp['writes']}")
+        elif any(exp["writes"].get(k) != v for k, v in obs["writes"].items()):
+            viol(f"unexpected output files {obs['writes']}, expected a subset of {exp['writes']}")
     if lazy and obs["maxout"] > case["w"]:
         viol(f"{kind} held {obs['maxout']} submitted-but-unconsumed tasks with max_workers={case['w']}")
     oc = model_cfg(case)[0][0]
@@ -461,7 +479,8 @@ def check_case(ck, sc, case, model_out=None):
             viol(f"{obs['warn']} read warnings, expected {exp['warn']}")
     nontriv = nt >= 2 and case["perm"] != sorted(case["perm"])
     ck.case(key=json.dumps(case, sort_keys=True) if nontriv else None,
-            kind=f"{kind}/{wt}/" + ("exc" if exp["exc"] else "ok") + ("/bundle" if case.get("bundle") else "") + f"/{case.get('mode', 'all')}",
+            kind=f"{kind}/{wt}/" + ("exc" if exp["exc"] else "ok") + ("/bundle" if case.get("bundle") else "")
+            + ("/output" if case.get("out") else "") + f"/{case.get('mode', 'all')}",
             sample={"kind": kind, "workers": case["w"], "tasks": nt, "wish": case["perm"], "released": obs["released"],
                     "yielded": obs["items"][:4] if kind != "collect" else obs.get("data", [])[:4]})
     if model_out is None:
@@ -492,6 +511,8 @@ def check_case(ck, sc, case, model_out=None):
             dis(f"max submitted-but-unconsumed: code {obs['maxout']} vs model {m['maxq']}")
         if m["exc"] is None and [int(x) for x in m["log"]] != list(range(nt)):
             dis(f"model submit log {m['log']}")
+    if "writes" in obs and m["exc"] is None and obs["exc"] is None and sorted(m["writes"]) != sorted(obs["writes"].values()):
+        dis(f"written values: model {m['writes']} vs code {obs['writes']}")
     if wt == "thread" and m["exc"] is None and obs["exc"] is None and m["warn"] != obs["warn"]:
         dis(f"warnings: model {m['warn']} vs code {obs['warn']}")
 
@@ -771,6 +792,8 @@ def random_case(rng, big=False):
     c = {"op": "pool", "kind": kind, "n": n, "w": rng.randint(1, 5), "sel": sel, "bundle": bundle, "mode": mode,
          "wt": "thread", "oc": rng.choice([0, 1, 1]), "pi": rng.randint(0, 1), "ri": rng.randint(0, 1),
          "ew": rng.choice([0, 1, 1]), "rb": rb, "fb": fb}
+    if kind in ("imap", "map") and rng.random() < 0.2:
+        c["out"] = 1                                # map(..., output=<FileSet>)
     nt = len(tasks_of(c))
     perm = list(range(nt))
     rng.shuffle(perm)
